@@ -121,13 +121,15 @@ async fn case_task(case: CaseSpec, src: PathBuf, keys: Vec<u32>) -> Opened {
             std::fs::write(dir.join(file), b).unwrap();
         }
     }
-    let r = match open_len {
-        4 => open_and_observe::<4>(dir.clone(), bloom, lazy, keys, count_only).await,
-        8 => open_and_observe::<8>(dir.clone(), bloom, lazy, keys, count_only).await,
-        33 => open_and_observe::<33>(dir.clone(), bloom, lazy, keys, count_only).await,
-        1000 => open_and_observe::<1000>(dir.clone(), bloom, lazy, keys, count_only).await,
-        n => Opened::InitErr(format!("machinery: key length {n}")),
-    };
+    macro_rules! by_len {
+        ($($n:literal),*) => {
+            match open_len {
+                $($n => open_and_observe::<$n>(dir.clone(), bloom, lazy, keys, count_only).await,)*
+                n => Opened::InitErr(format!("machinery: key length {n}")),
+            }
+        };
+    }
+    let r = by_len!(1, 2, 3, 4, 5, 7, 8, 9, 12, 15, 16, 17, 24, 31, 32, 33, 48, 63, 64, 65, 100, 128, 255, 1000);
     world::remove_dir(&dir);
     r
 }
@@ -168,7 +170,9 @@ pub fn run(threads: usize) -> (CompatStats, Vec<(CaseSpec, Vec<Finding>)>) {
     let manifest: Value = serde_json::from_str(&std::fs::read_to_string(root.join("MANIFEST.json")).expect("corpus manifest")).expect("json");
     let mut stats = CompatStats { corpus_sha: manifest["sha"].as_str().unwrap_or("").to_string(), ..Default::default() };
     let mut cases: Vec<(CaseSpec, PathBuf, Vec<u32>, Value)> = Vec::new();
-    let all_lens = [4usize, 8, 33, 1000];
+    let mut all_lens: Vec<usize> = manifest["dirs"].as_object().expect("dirs").values().map(|d| d["info"]["key_len"].as_u64().unwrap() as usize).collect();
+    all_lens.sort();
+    all_lens.dedup();
     for (name, d) in manifest["dirs"].as_object().expect("dirs") {
         stats.dirs += 1;
         let src = root.join(name);
@@ -183,7 +187,7 @@ pub fn run(threads: usize) -> (CompatStats, Vec<(CaseSpec, Vec<Finding>)>) {
                 cases.push((mk(Variant::Subset { removed, lazy }), src.clone(), keys.clone(), answers.clone()));
             }
         }
-        for other in all_lens {
+        for &other in &all_lens {
             if other != key_len {
                 cases.push((mk(Variant::KeySize(other)), src.clone(), keys.clone(), Value::Null));
             }
